@@ -21,6 +21,9 @@ pub fn consume<K: SimK, V: SimV, I, X>(
     ids: impl Fn(&X) -> (u64, u64) + Copy,
     give: impl Fn(&mut Cx<K, V>, X) + Copy,
     anon: (bool, bool),
+    // what stepping an observationally identical twin container with `next()` alone yielded, in
+    // order, as (key class, value payload) per item; `None` when no such twin could be had
+    order: Option<(&[(u32, u64)], &dyn Fn(&X) -> (u32, u64))>,
 ) -> Option<I>
 where
     I: Iterator<Item = X> + ExactSizeIterator,
@@ -30,9 +33,20 @@ where
     // hands one yielded item to the harness; callable from inside the iterator's own methods
     macro_rules! yielded {
         ($x:expr) => {{
+            let idx = sess.taken;
+            yielded!($x, idx)
+        }};
+        ($x:expr, $idx:expr) => {{
             let _p = Pause::new();
             let x = $x;
             let (a, b) = ids(&x);
+            if let Some((seq, key)) = &order {
+                let idx: usize = $idx;
+                let got = key(&x);
+                if idx < seq.len() && seq[idx] != got {
+                    violate("wrong-yield", format!("{what}: the item delivered for position {idx} of the sequence is (class {}, payload {}), but stepping an identical container with next() alone yields (class {}, payload {}) there", got.0, got.1, seq[idx].0, seq[idx].1));
+                }
+            }
             sess.got(a, b, anon);
             give(cx, x);
         }};
@@ -103,7 +117,8 @@ where
             }
             sess.taken += left.saturating_sub(1);
             if let Some(x) = l {
-                yielded!(x);
+                let idx = sess.s.len().saturating_sub(1);
+                yielded!(x, idx);
             }
             sess.saw_none = true;
             None
@@ -120,7 +135,7 @@ where
             }
             sess.taken += left.saturating_sub(1);
             if let Some(x) = l {
-                yielded!(x);
+                yielded!(x, usize::MAX);
             }
             sess.saw_none = true;
             None
